@@ -506,7 +506,9 @@ def run(ctx):
         runs_per_case=[n for n, _ in runs], compiled_sources=n_comp, compilations=n_compiles,
         compile_outcomes=outcome_kinds, decl_program_feature_max=feats,
         compiler_hash_iteration_sites=audit["iterated"], compiler_hash_iteration_sites_new=new_sites,
-        sources_compiled_nondeterministically=len(cfind), nondeterministic_cases=len(nondet)))
+        sources_compiled_nondeterministically=len(cfind), nondeterministic_cases=len(nondet),
+        nondeterministic_case_ids=[str(cases[i]["id"]) for i in sorted(nondet)][:40],
+        shared_item_name_cases=len(sh_idx)))
 
     detcomp.cleanup_includes()
     for key, payload in findings.items():
